@@ -6,6 +6,7 @@ import (
 	"sync"
 	"sync/atomic"
 	"time"
+	"unsafe"
 )
 
 // ProcStep is one step of a processing-time window scenario.
@@ -193,6 +194,39 @@ func RunProc(sc ProcScenario) (evs []Ev, inconclusive string) {
 			in.Release("tw.ptrig")
 			if !in.WaitFor(T, func() bool { return in.C("tw.ptrigdone") > b }) {
 				return in.Events(), "trigger did not complete"
+			}
+		case "lockrace":
+			// a reader holds the window lock across an interval boundary e; behind it queue, in this order, a manual TriggerWindow()
+			// and then the ingestion of one row, both called BEFORE e; the lock is released after e. Whatever the engine stamps the
+			// row with (its arrival before e, or the moment it is placed after e), the row is reported in an interval that
+			// overlaps its bracket.
+			addr := FieldAddr(w, "mu")
+			if addr == 0 {
+				return in.Events(), "window lock not found"
+			}
+			mu := (*sync.RWMutex)(unsafe.Pointer(addr))
+			nowNs := time.Now().UnixNano()
+			e := time.Unix(0, (nowNs/sizeNs+1)*sizeNs)
+			if time.Until(e) < 8*time.Millisecond {
+				e = e.Add(time.Duration(sizeNs))
+			}
+			time.Sleep(time.Until(e.Add(-5 * time.Millisecond)))
+			mu.RLock()
+			trigDone := make(chan struct{})
+			go func() { s.TriggerWindow(); close(trigDone) }()
+			time.Sleep(1500 * time.Microsecond)
+			nAdd++
+			g := fmt.Sprintf("g%d", st.ID%int64(max1(sc.Groups)))
+			v := st.ID*3 + 1
+			pd.Store(&pend{id: st.ID, lo: us(), g: g, v: v})
+			cur.Store(st.ID)
+			s.Emit(map[string]any{"id": st.ID, "g": g, "v": v})
+			time.Sleep(time.Until(e.Add(3 * time.Millisecond)))
+			mu.RUnlock()
+			<-trigDone
+			n := nAdd
+			if !in.WaitFor(T, func() bool { return in.C(addHook) >= n }) {
+				return in.Events(), "add not processed"
 			}
 		case "mtrig":
 			// TriggerWindow(): the current interval is reported now (the scenario hands in no further row before the interval is over);
